@@ -204,7 +204,7 @@ class Gen:
         big = depth == 0 and rng.random() < 0.06
         if big:
             # a long list-built collection: positions 10, 11 ... sort before 2 as strings
-            items = [self.model(rng.choice(["P1", "P1", "P0", "P2"]), depth + 2) for _ in range(rng.randint(11, 13))]
+            items = [self.model(rng.choice(["P1", "P1", "P2"]), depth + 2) for _ in range(rng.randint(11, 13))]
         else:
             n = rng.randint(1, 3)
             items = [self.component(depth) for _ in range(n)]
@@ -220,6 +220,10 @@ class Gen:
             self.prog.append({"op": "coll_list", "h": h, "items": []})
             for r_ in refs:
                 self.prog.append({"op": "append", "h": h, "item": r_})
+        elif form == "dict" and rng.random() < 0.25:
+            # members named by digit strings that are not their positions (ids, sparse or shuffled numbers)
+            names = [str(k) for k in rng.sample(range(0, len(refs) + 3), len(refs))]
+            self.prog.append({"op": "coll_dict", "h": h, "items": dict(zip(names, refs))})
         else:
             names = [f"{rng.choice(['g', 'x', 'comp', 'z_a'])}{j}" for j in range(len(refs))]
             self.prog.append({"op": "coll_dict" if form == "dict" else "coll_kw", "h": h, "items": dict(zip(names, refs))})
